@@ -135,7 +135,7 @@ Ready(k) ==
 Fire(k, d) ==
     /\ queued[k] /\ WorkerFree
     /\ queued' = [queued EXCEPT ![k] = FALSE]
-    /\ hist' = Append(hist, [ev |-> "Run", t |-> now, k |-> k])
+    /\ hist' = Append(hist, [ev |-> "Run", t |-> now, k |-> k, p |-> d])
     /\ IF d = 0 THEN UNCHANGED busy ELSE busy' = [busy EXCEPT ![k] = now + d]
     /\ UNCHANGED <<now, last, waiting, redo>>
 
